@@ -117,6 +117,9 @@ def runCase (j : Json) : Except String Json := do
   | "is_comment" =>
     let text ← (← j.getObjVal? "text").getStr?
     return toJson (Reader.isComment text.toList)
+  | "spec_is_comment" =>
+    let text ← (← j.getObjVal? "text").getStr?
+    return toJson (Spec.isCommentLine text.toList)
   | "paths" =>
     let a ← (← j.getObjVal? "a").getStr?
     let b ← (← j.getObjVal? "b").getStr?
